@@ -24,6 +24,7 @@ type PlayOpts struct {
 	RichFrom     int     // rich builds only after that many events of the epoch
 	RichBuilds   float64 // probability of a speculative Build of the creator's next event on top of ALL current heads, right before its real (sparser) event
 	Rebuilds     float64 // probability that the BuildEach copy is built twice: first with the self-parent only, then again (same object) with all parents
+	Reweigh      bool    // with ResetAfter: in the scenario's last epoch the Reset installs other weights for the same validators under the same epoch number; events whose claimed frame is no longer allowed are rejected and their descendants are not fed
 	ResetAfter   int     // >0: after that many accepted events of an epoch the instance is Reset() to the very same epoch and validator set and the epoch's events are fed again from the start
 	BuildHistory int     // >0: once per epoch, restart, then do this many sparse speculative builds at the same epoch/Lamport before building a root
 }
@@ -196,8 +197,20 @@ func Play(r *rand.Rand, s *Scenario, o PlayOpts, rec *Recorder) (blocks []BlockR
 		evs := orderEvents(r, ep.Events, o.Order)
 		var done []*Ev
 		resetDone := false
+		reweighed := false
+		notFed := map[int]bool{}
 		for i := 0; i < len(evs); i++ {
 			ev := evs[i]
+			if reweighed {
+				skip := false
+				for _, p := range ev.Ps {
+					skip = skip || notFed[p]
+				}
+				if skip {
+					notFed[ev.ID] = true
+					continue
+				}
+			}
 			adaptive := false
 			if o.ResetAfter < 0 && !resetDone && in.Store.GetLastDecidedFrame() == 0 {
 				// as late as possible before the first decision of the epoch: roots of frame 3 exist, nothing is decided yet
@@ -210,11 +223,34 @@ func Play(r *rand.Rand, s *Scenario, o PlayOpts, rec *Recorder) (blocks []BlockR
 			if (adaptive || (o.ResetAfter > 0 && len(done) == o.ResetAfter)) && !resetDone && in.Store.GetEpoch() == ep.Epoch {
 				// the application re-synchronises: Reset to the epoch it is in, then the same events again
 				resetDone = true
-				if err, _ := guarded(func() error { return in.ResetTo(ep.Epoch, buildVals(ep.Vals)) }); err != nil {
+				vals, byz := ep.Vals, anyByz
+				if o.Reweigh && ep == s.Epochs[len(s.Epochs)-1] && ep.SealFrame == 0 && len(ep.Vals) > 1 {
+					// same epoch number, same validators, other weights
+					vals = append([]ValW{}, ep.Vals...)
+					same := true
+					for k := range vals {
+						vals[k].W = ep.Vals[(k+1)%len(vals)].W
+						same = same && vals[k].W == ep.Vals[k].W
+					}
+					if same {
+						vals[0].W *= 3
+					}
+					total, cw := 0, 0
+					for _, v := range vals {
+						total += int(v.W)
+						if ep.Cheaters[v.ID] {
+							cw += int(v.W)
+						}
+					}
+					byz = byz || 3*cw >= total
+					reweighed = true
+					rec.Stats["resets_with_other_weights"]++
+				}
+				if err, _ := guarded(func() error { return in.ResetTo(ep.Epoch, buildVals(vals)) }); err != nil {
 					rec.Crit("reset: " + err.Error())
 					return in.Blocks, true
 				}
-				rec.Reset(ep.Epoch, ep.Vals, anyByz)
+				rec.Reset(ep.Epoch, vals, byz)
 				rec.Stats["resets_mid_epoch"]++
 				done = nil
 				i = -1
@@ -404,6 +440,10 @@ func Play(r *rand.Rand, s *Scenario, o PlayOpts, rec *Recorder) (blocks []BlockR
 			}
 			rec.ProcessLine(s, in, ev, err, in.Blocks[nb:])
 			if err != nil {
+				notFed[ev.ID] = true
+				if reweighed {
+					rec.Stats["rejected_after_reweigh"]++
+				}
 				continue
 			}
 			accepted++
